@@ -311,3 +311,5 @@ func orZero(v any) any {
 	}
 	return v
 }
+
+func newRand(seed int64) *rand.Rand { return rand.New(rand.NewSource(seed*104729 + 7)) }
